@@ -13,6 +13,9 @@ struct tag_data { char const *tag_begin, *tag_end; int pair; };
 struct entry { char const *begin, *end; html_data_type type; struct tag_data tag; };
 #define SPECIAL(c) ((c) == '<' || (c) == '>' || (c) == '&')
 size_t g_k;                                   /* arbitrary absolute offset (ghost index) */
+size_t g_v0, g_p0;
+#define ALNUM(c) (((c) >= '0' && (c) <= '9') || ((c) >= 'a' && (c) <= 'z') || ((c) >= 'A' && (c) <= 'Z'))
+#define ALPHA(c) ((((c) >= 'a' && (c) <= 'z') || ((c) >= 'A' && (c) <= 'Z')) || (c) == '_')
 /* ---- tags.push_back(entry(b,e,type)) (R10): checks the TILING (each part starts where the previous ended, is non-empty, stays inside the input)
         and the CLASSIFICATION of the part at the arbitrary ghost offset g_k */
 char const *g_in_b, *g_in_e; size_t g_last_end; size_t g_parts;
@@ -81,16 +84,9 @@ __CPROVER_assigns(g_last_end, g_parts)
 /* the parts tile the whole input (each push is checked in the stub; here: the last part ends at `end`) */
 __CPROVER_ensures(g_last_end == OFF(end))
 '''),
-    # ---------------- strict grammar of one tag (memory safety relies on the '>' sentinel that the tokeniser guarantees)
-    dict(cname='xss_ends_with', file=X, locate=lit('bool ends_with(char const *&begin,char const *end,char const *value)'),
-         sig='bool xss_ends_with(char const **begin, char const *end, char const *value)', refs=['begin'],
-         contract=r'''
-__CPROVER_requires(__CPROVER_rw_ok(begin, sizeof(*begin)) && SAME(*begin, end) && OFF(*begin) <= OFF(end) + 1 && (OFF(*begin) > OFF(end) || __CPROVER_r_ok(*begin, OFF(end) - OFF(*begin))) && __CPROVER_r_ok(value, 7) &&
-                   (value[0] == 0 || value[1] == 0 || value[2] == 0 || value[3] == 0 || value[4] == 0 || value[5] == 0 || value[6] == 0))
-__CPROVER_assigns(*begin)
-__CPROVER_ensures(SAME(*begin, end) && OFF(*begin) >= OFF(__CPROVER_old(*begin)) && (__CPROVER_return_value ? (OFF(*begin) <= OFF(end) && OFF(*begin) > OFF(__CPROVER_old(*begin)) - (value[0] == 0)) : OFF(*begin) == OFF(__CPROVER_old(*begin))))
-'''),
 ]
+
+exec(open(os.path.join(os.path.dirname(os.path.abspath(__file__)), 'xss_tag.inc')).read())
 
 jobs = [
     dict(name='ascii_isalpha', props=P, enforce='ascii_isalpha', harness='char c; ascii_isalpha(c); VERIF_REACH;'),
@@ -108,6 +104,7 @@ jobs = [
     __CPROVER_assert(g_last_end == OFF(buf) + n, "the parts tile the whole input: the last part ends at `end`");
     VERIF_REACH;""", witness=dict(bufs=['in'])),
 ]
+jobs += TAGJOBS
 
 UNIT = dict(
     name='xss', pre=PRE, functions=functions, jobs=jobs,
